@@ -1,0 +1,29 @@
+//go:build verif
+
+package banderwagon
+
+import (
+	"github.com/crate-crypto/go-ipa/bandersnatch"
+	"github.com/crate-crypto/go-ipa/bandersnatch/fp"
+)
+
+// VerifFromRaw builds an Element from raw projective coordinates (no validation).
+func VerifFromRaw(x, y, z fp.Element) Element {
+	return Element{inner: bandersnatch.PointProj{X: x, Y: y, Z: z}}
+}
+
+// VerifRaw returns the raw projective coordinates of p.
+func (p *Element) VerifRaw() (x, y, z fp.Element) {
+	return p.inner.X, p.inner.Y, p.inner.Z
+}
+
+// VerifTable returns the precomputed window table k of basis point i
+// (entries are normalised extended points X, Y, T).
+func (msm *MSMPrecomp) VerifTable(i, k int) []bandersnatch.PointExtendedNormalized {
+	return msm.precompPoints[i].windows[k]
+}
+
+// VerifWindowSize returns the window size used for basis point i.
+func (msm *MSMPrecomp) VerifWindowSize(i int) int {
+	return msm.precompPoints[i].windowSize
+}
